@@ -2,9 +2,9 @@ package main
 
 import (
 	"fmt"
-	"strings"
 	"go/token"
 	"go/types"
+	"strings"
 
 	"golang.org/x/tools/go/ssa"
 )
@@ -39,12 +39,17 @@ func runC11(r *Report) {
 
 // R7 (from round-2 seeded changes): three small arithmetic/identity disciplines behind what is sent.
 // (a) bitmap.New(n) is handed piece counts and must allocate ceil(n/8) bytes: the forms n>>3 + 1 and n/8 + 1 are one
-//     byte too long whenever n is a multiple of 8, and peer.Run only ever extends the advertised bitfield.
+//
+//	byte too long whenever n is a multiple of 8, and peer.Run only ever extends the advertised bitfield.
+//
 // (b) the torrent length is a 64-bit quantity: where it is narrowed to 32 bits the operand must already be a
-//     quotient, remainder, shift or mask (bounded by the geometry checks), never the raw length — `uint32(l)/ChunkSize`
-//     gives every block beyond 4 GiB the final block's length.
+//
+//	quotient, remainder, shift or mask (bounded by the geometry checks), never the raw length — `uint32(l)/ChunkSize`
+//	gives every block beyond 4 GiB the final block's length.
+//
 // (c) the identity of a PEX entry is its address: pex.Find compares addresses only; comparing whole entries (with
-//     their flags) makes departures unmatched and changed flags a second announcement.
+//
+//	their flags) makes departures unmatched and changed flags a second announcement.
 func c11R7(r *Report) {
 	p := r.P
 	// (a)
